@@ -141,14 +141,20 @@ func vh_C15_templates() {
 }
 
 // macros whose bodies are templates, with the expansion written by hand
-var vC15Macros = []struct{ def, call, byHand string }{
-	{`(defmac m [a] ^(+ ~a 1))`, `(m (t 9001))`, `(+ (t 9001) 1)`},
-	{`(defmac m [a b] ^(begin (t ~a) (t ~b) (- ~a ~b)))`, `(m 9001 9002)`, `(begin (t 9001) (t 9002) (- 9001 9002))`},
-	{`(defmac m [& body] ^(begin ~@body))`, `(m (t 9001) (t 9002))`, `(begin (t 9001) (t 9002))`},
-	{`(defmac m [c & body] ^(cond ~c (begin ~@body) 0))`, `(m (< 9001 9002) (t 9001) (t 9002))`, `(cond (< 9001 9002) (begin (t 9001) (t 9002)) 0)`},
-	{`(defmac m [v e] ^(let [~v ~e] (t ~v)))`, `(m z (+ 9001 1))`, `(let [z (+ 9001 1)] (t z))`},
-	{`(defmac m [a] ^[~a (t ~a) [~a]])`, `(m 9001)`, `[9001 (t 9001) [9001]]`},
-	{`(defmac inner [a] ^(t ~a)) (defmac m [a] ^(+ (inner ~a) (inner 9002)))`, `(m 9001)`, `(+ (t 9001) (t 9002))`},
+var vC15Macros = []struct{ def, call, byHand, prelude string }{
+	{`(defmac m [a] ^(+ ~a 1))`, `(m (t 9001))`, `(+ (t 9001) 1)`, ``},
+	{`(defmac m [a b] ^(begin (t ~a) (t ~b) (- ~a ~b)))`, `(m 9001 9002)`, `(begin (t 9001) (t 9002) (- 9001 9002))`, ``},
+	{`(defmac m [& body] ^(begin ~@body))`, `(m (t 9001) (t 9002))`, `(begin (t 9001) (t 9002))`, ``},
+	{`(defmac m [c & body] ^(cond ~c (begin ~@body) 0))`, `(m (< 9001 9002) (t 9001) (t 9002))`, `(cond (< 9001 9002) (begin (t 9001) (t 9002)) 0)`, ``},
+	{`(defmac m [v e] ^(let [~v ~e] (t ~v)))`, `(m z (+ 9001 1))`, `(let [z (+ 9001 1)] (t z))`, ``},
+	{`(defmac m [a] ^[~a (t ~a) [~a]])`, `(m 9001)`, `[9001 (t 9001) [9001]]`, ``},
+	{`(defmac inner [a] ^(t ~a)) (defmac m [a] ^(+ (inner ~a) (inner 9002)))`, `(m 9001)`, `(+ (t 9001) (t 9002))`, ``},
+	// expansions that contain control flow: they are compiled in the caller's
+	// context (open scopes, enclosing loop, tail position)
+	{`(defmac m [c] ^(cond ~c (break) (t 9002)))`, `(m (> (+ i y) 9001))`, `(cond (> (+ i y) 9001) (break) (t 9002))`, `(def i 50) (def y 60)`},
+	{`(defmac m [c] ^(cond ~c (continue) (t (+ i y))))`, `(m (== (+ i y) 9001))`, `(cond (== (+ i y) 9001) (continue) (t (+ i y)))`, `(def i 50) (def y 60)`},
+	{`(defmac m [& body] ^(let [w 1] ~@body))`, `(m (cond (> i 9001) (break) (t i)))`, `(let [w 1] (cond (> i 9001) (break) (t i)))`, `(def i 50) (def y 60)`},
+	{`(defmac m [n acc] ^(g ~n ~acc))`, `(m (- n 1) (+ acc (t n)))`, `(g (- n 1) (+ acc (t n)))`, `(defn g [n acc] acc) (def n 1) (def acc 5)`},
 }
 
 var vC15Sites = []string{
@@ -157,6 +163,12 @@ var vC15Sites = []string{
 	`(def r 0) (for [(def i 0) (< i 2) (set i (+ i 1))] (set r CALL)) r`, // inside a loop body
 	`(let [q 9003] (+ q CALL))`,                              // inside a let, as an operand
 	`(defn f [] (cond true CALL 0)) (f)`,                     // tail position inside a function
+	// inside an extra scope inside a loop: a break/continue in the expansion pops that scope too
+	`(def i 100) (def r []) (for [(def i 0) (< i 4) (set i (+ i 1))] (let [y (* i 2)] CALL (set r (append r y)))) (list i r)`,
+	`(def i 100) (def r []) (for [(def i 0) (< i 4) (set i (+ i 1))] (newScope (def y (* i 3)) CALL (set r (append r y)))) (list i r)`,
+	`(def i 100) (def r []) (for [(def k 0) (< k 2) (set k (+ k 1))] (for [(def i 0) (< i 3) (set i (+ i 1))] (let [y k] CALL (set r (append r (+ (* 10 k) i)))))) (list i r)`,
+	// the expansion is a self tail call inside a let inside the function
+	`(defn g [n acc] (let [y 1] (cond (<= n 0) acc (letseq [z y] CALL)))) (g 3 0)`,
 }
 
 // vh_C15_macros: calling a macro equals writing the form its body returns
@@ -170,8 +182,8 @@ func vh_C15_macros() {
 	h := []Sexp{vSmallInt("h1"), vSmallInt("h2"), vSmallInt("h3")}
 	m := vC15Macros[mk]
 	site := vC15Sites[sk]
-	withMacro := m.def + " " + vReplace(site, "CALL", m.call)
-	byHand := vReplace(site, "CALL", m.byHand)
+	withMacro := m.prelude + " " + m.def + " " + vReplace(site, "CALL", m.call)
+	byHand := m.prelude + " " + vReplace(site, "CALL", m.byHand)
 	var r1, r2 Sexp
 	var e1, e2 error
 	var p1, p2 bool
